@@ -494,6 +494,8 @@ func pairs(l []kv) string {
 }
 
 func main() {
+	// no janitor of any cache built here ticks: every removal is made by a call of the case
+	vclock.FreezeTickers(true)
 	in := bufio.NewScanner(os.Stdin)
 	in.Buffer(make([]byte, 1<<20), 1<<26)
 	out := bufio.NewWriter(os.Stdout)
